@@ -1,4 +1,4 @@
-//@ needs specs errors stdspecs lebytes anchor_shim state_core authority position_rules managers bit_math swap_handlers(stub) handlers_small tick_math_abs
+//@ needs specs errors stdspecs lebytes anchor_shim state_core authority position_rules managers bit_math swap_handlers(stub) handlers_small tick_math_abs liquidity_manager
 // Handler layer of the small Anchor instructions: lock / close position, fee and protocol-fee collection, reward emissions.
 // The account wrappers are the shims of fragment swap_handlers; every #[account(..)] attribute is dropped and NOT checked.
 pub mod anchor_handlers {
@@ -14,6 +14,8 @@ use crate::authority::verify_position_bundle_authority;
 #[allow(unused_imports)]
 use crate::tick_math::*;
 use crate::swap_handlers::{Context, Account, Program, Token, UncheckedAccount, Clock, ClockData, now_unix, to_timestamp_u64, moved, transfer_from_vault_to_owner, Mint};
+use crate::swap_handlers::{Interface, TokenInterface, Memo, RemainingAccountsInfo, RemainingAccountsSlice, AccountsType, ParsedRemainingAccounts, parse_remaining_accounts, transfer_from_vault_to_owner_v2, memo_bytes};
+use crate::handlers_small::calculate_collect_reward_v2;
 use crate::authority::is_locked_position;
 use crate::handlers_small::calculate_collect_reward;
 use crate::state_core::PositionRewardInfo;
@@ -176,5 +178,73 @@ pub open spec fn opened_ok(w: Account<'_, Whirlpool>, mint: Pubkey, lo_in: i32, 
         r is Ok ==> bundle_index < 256 && !bundle_open(old(ctx.accounts).position_bundle.data.position_bitmap, bundle_index as int)
             && (forall|j: int| 0 <= j < 256 ==> #[trigger] bundle_open(final(ctx.accounts).position_bundle.data.position_bitmap, j) == (j == bundle_index || bundle_open(old(ctx.accounts).position_bundle.data.position_bitmap, j))), //# C18
 //@ rewrite /emit!\(PositionOpened \{/ => /emit_position_opened(PositionOpened {/
+//@ end
+
+// ------------------------------------------------------------------ v2 (token-extension aware) collect handlers
+pub mod transfer_memo {
+    pub const TRANSFER_MEMO_COLLECT_PROTOCOL_FEES: &'static str = "Orca CollectProtocolFees";
+    pub const TRANSFER_MEMO_COLLECT_FEES: &'static str = "Orca CollectFees";
+    pub const TRANSFER_MEMO_COLLECT_REWARD: &'static str = "Orca CollectReward";
+}
+//@ subst /transfer_memo::(TRANSFER_MEMO_[A-Z_]+)\.as_bytes\(\)/ => /memo_bytes(transfer_memo::\1)/
+//@ subst /calculate_collect_reward\(\n/ => /calculate_collect_reward_v2(\n/
+//@ struct instructions/v2/collect_fees.rs CollectFeesV2
+//@ fn instructions/v2/collect_fees.rs handler -> r as=collect_fees_v2_handler tags=C04,C07,C01,C06
+    ensures
+        r is Ok ==> authority_rule(old(ctx.accounts).position_token_account.data.owner, copt(old(ctx.accounts).position_token_account.data.delegate), old(ctx.accounts).position_token_account.data.delegated_amount,
+            *old(ctx.accounts).position_authority.info.key, old(ctx.accounts).position_authority.info.is_signer), //# C04
+        r is Ok ==> final(ctx.accounts).position.data == (Position { fee_owed_a: 0, fee_owed_b: 0, ..old(ctx.accounts).position.data }), //# C07 C01
+        r is Ok ==> moved(*old(ctx.accounts).token_vault_a.info.key, *old(ctx.accounts).token_owner_account_a.info.key, old(ctx.accounts).position.data.fee_owed_a)
+            && moved(*old(ctx.accounts).token_vault_b.info.key, *old(ctx.accounts).token_owner_account_b.info.key, old(ctx.accounts).position.data.fee_owed_b), //# C07 C01 C06
+//@ end
+//@ struct instructions/v2/collect_protocol_fees.rs CollectProtocolFeesV2
+//@ fn instructions/v2/collect_protocol_fees.rs handler -> r as=collect_protocol_fees_v2_handler tags=C06,C01
+    ensures
+        r is Ok ==> final(ctx.accounts).whirlpool.data == (Whirlpool { protocol_fee_owed_a: 0, protocol_fee_owed_b: 0, ..old(ctx.accounts).whirlpool.data }),
+        r is Ok ==> moved(*old(ctx.accounts).token_vault_a.info.key, *old(ctx.accounts).token_destination_a.info.key, old(ctx.accounts).whirlpool.data.protocol_fee_owed_a)
+            && moved(*old(ctx.accounts).token_vault_b.info.key, *old(ctx.accounts).token_destination_b.info.key, old(ctx.accounts).whirlpool.data.protocol_fee_owed_b),
+//@ end
+//@ struct instructions/v2/collect_reward.rs CollectRewardV2
+//@ fn instructions/v2/collect_reward.rs handler -> r as=collect_reward_v2_handler tags=C11,C04
+    requires reward_index < 3,
+    ensures
+        r is Ok ==> authority_rule(old(ctx.accounts).position_token_account.data.owner, copt(old(ctx.accounts).position_token_account.data.delegate), old(ctx.accounts).position_token_account.data.delegated_amount,
+            *old(ctx.accounts).position_authority.info.key, old(ctx.accounts).position_authority.info.is_signer), //# C04
+        r is Ok ==> ({ let owed = old(ctx.accounts).position.data.reward_infos[reward_index as int].amount_owed; let paid = min_i(owed as int, old(ctx.accounts).reward_vault.data.amount as int);
+            moved(*old(ctx.accounts).reward_vault.info.key, *old(ctx.accounts).reward_owner_account.info.key, paid as u64)
+            && final(ctx.accounts).position.data.reward_infos[reward_index as int].amount_owed as int == owed as int - paid
+            && (forall|k: int| 0 <= k < 3 && k != reward_index ==> final(ctx.accounts).position.data.reward_infos[k] == old(ctx.accounts).position.data.reward_infos[k])
+            && final(ctx.accounts).position.data.liquidity == old(ctx.accounts).position.data.liquidity
+            && final(ctx.accounts).position.data.fee_owed_a == old(ctx.accounts).position.data.fee_owed_a && final(ctx.accounts).position.data.fee_owed_b == old(ctx.accounts).position.data.fee_owed_b }), //# C11
+//@ end
+
+// ------------------------------------------------------------------ update_fees_and_rewards
+//@ assume update_fees_and_rewards shims: load_tick_array (owner, discriminator and whirlpool-field checks, then an unsafe cast) is an external stub recording ta_loaded(account, pool) and handing out an abstract tick array
+pub use crate::liquidity_manager::{TickArrayType, calculate_fee_and_reward_growths, refresh_spec};
+pub uninterp spec fn ta_loaded(account: Pubkey, pool: Pubkey) -> bool;
+pub struct TA { pub x: u8 }
+impl TickArrayType for TA {
+    uninterp spec fn tick_at(&self, tick_index: int, spacing: int) -> Option<crate::state_core::Tick>;
+    uninterp spec fn variable(&self) -> bool;
+    #[verifier::external_body] fn is_variable_size(&self) -> (r: bool) { unimplemented!() }
+    #[verifier::external_body] fn get_tick(&self, tick_index: i32, tick_spacing: u16) -> (r: Result<crate::state_core::Tick>) { unimplemented!() }
+    #[verifier::external_body] fn update_tick(&mut self, tick_index: i32, tick_spacing: u16, update: &crate::state_core::TickUpdate) -> (r: Result<()>) { unimplemented!() }
+}
+pub struct LoadedTickArray { pub ta: TA }
+impl LoadedTickArray { pub fn deref(&self) -> (r: &TA) ensures *r == self.ta { &self.ta } }
+#[verifier::external_body]
+pub fn load_tick_array(account: &UncheckedAccount<'_>, whirlpool: &Pubkey) -> (r: Result<LoadedTickArray>) ensures r is Ok ==> ta_loaded(*account.k, *whirlpool) { unimplemented!() }
+//@ struct instructions/update_fees_and_rewards.rs UpdateFeesAndRewards
+/// C07 / C11: the position's fee and reward checkpoints and owed amounts are refreshed by the zero-delta computation on the position's own bound ticks (read from
+/// tick arrays loaded against THIS pool), and the pool's reward growths are settled up to now; liquidity and everything else stay as they are
+//@ fn instructions/update_fees_and_rewards.rs handler -> r as=update_fees_and_rewards_handler tags=C07,C11,C15
+    ensures
+        r is Ok ==> ta_loaded(*old(ctx.accounts).tick_array_lower.k, old(ctx.accounts).whirlpool.k) && ta_loaded(*old(ctx.accounts).tick_array_upper.k, old(ctx.accounts).whirlpool.k), //# C15
+        r is Ok ==> now_unix() >= 0 && exists|tl: crate::state_core::Tick, tu: crate::state_core::Tick, lv: bool, uv: bool, pu: crate::state_core::PositionUpdate, ri: [WhirlpoolRewardInfo; NUM_REWARDS]|
+            #[trigger] refresh_spec(old(ctx.accounts).whirlpool.data, old(ctx.accounts).position.data, tl, tu, lv, uv, now_unix() as u64 as int, pu, ri)
+            && final(ctx.accounts).whirlpool.data == (Whirlpool { reward_infos: ri, reward_last_updated_timestamp: now_unix() as u64, ..old(ctx.accounts).whirlpool.data })
+            && final(ctx.accounts).position.data.liquidity == pu.liquidity && final(ctx.accounts).position.data.fee_owed_a == pu.fee_owed_a && final(ctx.accounts).position.data.fee_owed_b == pu.fee_owed_b
+            && final(ctx.accounts).position.data.fee_growth_checkpoint_a == pu.fee_growth_checkpoint_a && final(ctx.accounts).position.data.fee_growth_checkpoint_b == pu.fee_growth_checkpoint_b
+            && final(ctx.accounts).position.data.tick_lower_index == old(ctx.accounts).position.data.tick_lower_index && final(ctx.accounts).position.data.tick_upper_index == old(ctx.accounts).position.data.tick_upper_index, //# C07 C11
 //@ end
 }
